@@ -223,6 +223,9 @@ add("C20",
 
 # ---------------------------------------------------------------- C08
 add("C08",
+    V("leftover-number-without-token-record", "C08", [(PARSER, "                    params.update({attr: int(token)})\n                    setattr(self, \"_token_%s\" % attr, token)\n                    setattr(self, attr, int(token))\n",
+                                                        "                    params.update({attr: int(token)})\n                    setattr(self, attr, int(token))\n")], "fire", "C08.R6",
+      note="seeded change C05-3: '17 mars 2015' in a year-first locale gets the reference day"),
     V("first-day-is-2", "C08", [(UTILS, '    options = {\n        "first": 1,\n        "last": get_last_day_of_month', '    options = {\n        "first": 2,\n        "last": get_last_day_of_month')], "fire", "C08.R1"),
     V("last-day-of-wrong-month", "C08", [(UTILS, '"last": get_last_day_of_month(date_obj.year, date_obj.month),', '"last": get_last_day_of_month(date_obj.year, datetime.now().month),')], "fire", "C08.R1"),
     V("no-clamp-fallback", "C08", [(UTILS, '    try:\n        return date_obj.replace(day=options[settings.PREFER_DAY_OF_MONTH])\n    except ValueError:\n        return date_obj.replace(day=options["last"])',
